@@ -207,6 +207,9 @@ def run(ctx):
         check_dag(ctx, nodes, f'dag{t}', derive=(t % 3 == 0))
         if t % 10 == 0:
             eq_pairs(ctx, nodes)
+    # near twins built next to each other in one process: cells differing only in what a cache key could forget
+    for t in range(ctx.n(120, 1200)):
+        check_dag(ctx, G.near_twins(rng), f'twins{t}', derive=(t % 6 == 0), routes=[rng.choice(ROUTES)])
     # chains around the depth limit
     for depth in (1, 2, 1021, 1022, 1023, 1024, 1025):
         for width in (1, 2):
